@@ -29,7 +29,10 @@ static cbor_item_t* chunk(int text) { unsigned char b = in_u8(); cbor_item_t* x 
 #define OP_TAG_ITEM 17
 #define OP_BUILD_TAG 18
 #define OP_COPY 19
-#define OP_DECREF_NESTED 20        /* array [ tag(c1), c1 ]: releasing the array releases the tag, which drops its reference to c1 */
+#define OP_DECREF_NESTED 20
+#define OP_REPLACE_SAME 21          /* the slot is overwritten with the very item it already holds (aliasing) */
+#define OP_PUSH_AGAIN 22            /* an item already held by the array is pushed a second time */
+#define OP_MAP_ADD_SAME 23          /* the same item as key and as value */        /* array [ tag(c1), c1 ]: releasing the array releases the tag, which drops its reference to c1 */
 
 void harness(void) {
   a_install();
@@ -114,6 +117,25 @@ void harness(void) {
   VF_ASSERT(ok && x->refcount == 2 + sx, "replace takes one reference to the new element");
   if (sy == 0) VF_ASSERT(a_live == live0 - 1, "replaced element released when the array held its last reference"); else VF_ASSERT(y->refcount == sy && a_live == live0, "replaced element loses exactly one reference");
   VF_ASSERT(cbor_array_handle(a)[0] == x, "slot holds the new element");
+#elif OP == OP_REPLACE_SAME
+  cbor_item_t* y = leaf(); cbor_item_t* a = KIND ? cbor_new_definite_array(1) : cbor_new_indefinite_array(); __CPROVER_assume(a); OK(cbor_array_push(a, y));
+  size_t sy = surplus(); y->refcount = 2 + sy;   /* client + slot + others */
+  size_t live0 = a_live;
+  bool ok = (KIND & 1) ? cbor_array_set(a, 0, y) : cbor_array_replace(a, 0, y);
+  VF_ASSERT(ok && cbor_array_handle(a)[0] == y, "slot still holds the item");
+  VF_ASSERT(y->refcount == 2 + sy && a_live == live0, "putting an item back into the slot that holds it leaves its count unchanged (one reference dropped, one taken)");
+#elif OP == OP_PUSH_AGAIN
+  cbor_item_t* y = leaf(); cbor_item_t* a = cbor_new_indefinite_array(); __CPROVER_assume(a); OK(cbor_array_push(a, y));
+  size_t sy = surplus(); y->refcount = 2 + sy;
+  bool ok = cbor_array_push(a, y);
+  VF_ASSERT(ok && y->refcount == 3 + sy && cbor_array_size(a) == 2 && cbor_array_handle(a)[0] == y && cbor_array_handle(a)[1] == y, "an item may be held by several slots: one reference per slot");
+#elif OP == OP_MAP_ADD_SAME
+  cbor_item_t* k = leaf(); cbor_item_t* m = cbor_new_indefinite_map(); __CPROVER_assume(m);
+  size_t sk = surplus(); k->refcount = 1 + sk; size_t live0 = a_live;
+  bool ok = cbor_map_add(m, (struct cbor_pair){.key = k, .value = k});
+  VF_ASSERT(ok && k->refcount == 3 + sk, "the same item as key and value: two references");
+  cbor_decref(&m);
+  VF_ASSERT(k->refcount == 1 + sk && a_live == live0 - 1, "releasing the map drops both references (header freed; the slot table was allocated after live0 was taken)");
 #elif OP == OP_GET
   cbor_item_t* y = leaf(); cbor_item_t* a = cbor_new_indefinite_array(); __CPROVER_assume(a); OK(cbor_array_push(a, y));
   size_t sy = surplus(); y->refcount = 2 + sy;
